@@ -7,7 +7,8 @@ from ..val import veq, clone
 
 ID = 'C19'
 NEED_BINS = False
-SIZES = {'quick': 5000, 'thorough': 300000}
+SIZES = {'quick': 5000, 'thorough': 600000}
+REQUIRED_EVENTS = ['I1_snapshots', 'I2_repeats', 'I3_controls', 'I4_unevaluated']
 RULE = ('histories of up to 8 (thorough 12) API calls from {MergeDocument (new document / child layer of an earlier one), Documents, '
         'Output(json|yaml|toml|json-pretty), OutputDocuments, OutputToWriter} over documents that use $merge, $replace (same- and cross-document), '
         '$repeat (document level, named, nested), $encode/$decode, $output and interpolation. Monitors: (I1) Documents() snapshot before = after '
